@@ -416,7 +416,7 @@ CHECKS['C13'] = {
     'rule': ('bounded-exhaustive enumeration against an independent long-double reference of the documented shapes. Membership functions: all 13 kinds; EVERY parameter tuple a<=b<=c<=d from {-2,-1,-1/2,0,1,1.5,3} INCLUDING ties for tri/trap/lins/linz, non-zero widths for the smooth kinds (3 widths x 7 centres, bell exponents 1..3, slopes +-1,+-4), equal slopes and ordered centres for dsig; '
              'x = every break point, one ulp on either side, quarter points between break points, +-7.5, +-1e3. Per evaluation: value in [0,1] and not NaN, equal to the documented piecewise shape (4 ulp piecewise, 64 ulp transcendental; the reference is continuous, so the +-1 ulp points check continuity), exactly 1 on the core (incl. a peak that coincides with a foot), flank monotonicity between neighbouring lattice points, dispatcher == specific function (also for the terminator and out-of-range kinds), s+z == 1 and lins+linz == 1. '
              'Operators: all pairs from {0,1/16,...,1}^2 for the seven operators: range, commutativity, monotone in each argument, cap <= min, cup >= max, the compensatory operator between algebraic product and algebraic sum, boundary cases at 0 and 1, definition, not involutive, selector. '
-             'Gain scheduling: 7 rule bases (each of the kp, ki, kd tables absent in one of them) (incl. the degenerate shoulder triangles of test/pid_fuzzy.h, 3 simultaneously active sets, gaussian/bell sets) x 7 operators x a 41x41 (81x81 thorough) (e, ec) lattice spanning beyond the universe: corrections equal the weighted mean of the active consequents, lie between their min and max, stay finite when the total firing strength is zero, equal the base gains when no rule is active; scratch buffer of exactly A_PID_FUZZY_BFUZZ(active) bytes between canaries.'),
+             'Gain scheduling: 7 rule bases (each of the kp, ki, kd tables absent in one of them) (incl. the degenerate shoulder triangles of test/pid_fuzzy.h, 3 simultaneously active sets, gaussian/bell sets) x 7 operators x a 41x41 (81x81 thorough) (e, ec) lattice spanning beyond the universe: corrections equal the weighted mean of the active consequents, lie between their min and max, stay finite when the total firing strength is zero, equal the base gains when no rule is active; scratch buffer of exactly A_PID_FUZZY_BFUZZ(active) bytes between canaries. Real types double, float and long double (-DA_SIZE_REAL=16: sizeof(a_real) != 2*sizeof(unsigned), which the buffer layout must not assume).'),
     'assumptions': ['a set is active when its degree exceeds the real type epsilon (the controller\'s own threshold)', 'the compensatory operator a_fuzzy_equ is neither an intersection nor a union; it is bounded by the algebraic product and sum, not by min/max'],
     'design_ref': '§4.C13', 'technique': 'bounded-exhaustive enumeration of parameter tuples (ties included) x abscissa lattices, operator pair grids and (e, ec) lattices against an independent reference',
     'level_text': 'Every branch constant of the 13 membership functions becomes lattice points at, just below and just above it, for every ordered parameter tuple including all ties; the operators are decided on a 17x17 grid; the scheduled gains are compared with an independent mean-of-centres reference on a dense (e, ec) lattice for every operator and six rule bases.',
@@ -482,7 +482,7 @@ CHECKS['C08'] = {
     'title': 'LU, LDL^T and Cholesky factorizations reconstruct, solve and fail correctly', 'level': 'exploration', 'engine': 'grid', 'jobs': c08_jobs,
     'rule': ('bounded-exhaustive enumeration of matrices with an exact integer classification (fraction-free Bareiss minors in __int128) and __float128 reconstruction: LU with partial pivoting on ALL matrices of order 1..3 over {-2..2} (1.95 million of order 3), order 4 over {0,1} (quick) / {-1,0,1} (thorough, 43 million), '
              'and P*L*U families of order 5 (6 in thorough) under EVERY row permutation so that every pivot order occurs; LDL^T and Cholesky on ALL symmetric matrices of order 1..3 over {-2..2} and order 4 over {-1,0,1} ({-2..2} thorough), Cholesky also with the diagonal shifted by 3, plus named non-positive pivots at every position for orders 1..5; '
-             'every matrix also under row / column (symmetric for LDL/LLT) scalings by 2^+-20 and 2^+-200 (2^+-60 for float); right-hand sides: unit vectors and all vectors over {-1,0,1}. On success: pivot vector is a permutation whose parity equals the reported sign, |multipliers| <= 1, strictly positive Cholesky diagonal, '
+             'duplicated rows with pivot values 1..100 (values whose reciprocal is inexact); Pascal, Wilkinson growth, second-difference and Vandermonde matrices of order 2..10; every matrix also under row / column (symmetric for LDL/LLT) scalings by 2^+-20 and 2^+-200 (2^+-60 for float) and uniform scalings of the whole matrix by 2^+-600 (2^+-100 float: the product of the pivots leaves the range, the log-determinant must stay finite); right-hand sides: unit vectors and all vectors over {-1,0,1}. On success: pivot vector is a permutation whose parity equals the reported sign, |multipliers| <= 1, strictly positive Cholesky diagonal, '
              'P*A - L*U (A - L*D*L^T, A - L*L^T) within the componentwise bound 4n eps (|L||U|), extractors match the packed storage, solve and both inverse variants satisfy the componentwise backward-error bound 16n eps (|L||U|)|x| and agree with each other within it, det within the perturbation bound of the exact determinant, exp(lndet) and sgndet consistent. '
              'On failure: the exact determinant (LU) / a leading principal minor (LDL, LLT) must vanish (be non-positive); conversely zero columns, equal rows and - wherever the arithmetic up to that point is exact (dyadic) - vanishing LDL pivots and non-positive Cholesky pivots must be reported as failure; every exactly nonsingular / regular / positive definite lattice matrix must succeed. Guard cells around every output.'),
     'assumptions': ['when earlier pivots are not dyadic an exactly vanishing later pivot may come out as rounding noise of either sign; failure is then neither required nor forbidden', 'libquadmath products of small integers and powers of two are exact'],
